@@ -106,6 +106,7 @@ type VerifRootInfo struct {
 	ReclaimLater [3]uintptr
 	RootEmpty    bool
 	Lock         uintptr // the rootLock shared by all handles of one lineage
+	ChainMarks   []uintptr // reclaimMark sentinels of the versions this one chains to
 }
 
 // VerifRoot returns the version information of the handle c (zero value if closed).
@@ -126,6 +127,9 @@ func VerifRoot(c *Collection) VerifRootInfo {
 	}
 	for i, n := range r.reclaimLater {
 		ri.ReclaimLater[i] = uintptr(unsafe.Pointer(n))
+	}
+	for x := r.chainedRootNodeLoc; x != nil; x = x.chainedRootNodeLoc {
+		ri.ChainMarks = append(ri.ChainMarks, uintptr(unsafe.Pointer(&x.reclaimMark)))
 	}
 	return ri
 }
